@@ -6,6 +6,7 @@ import GlareModel.Core.SemParse
 import GlareModel.Core.Like
 import GlareModel.Core.Str
 import GlareModel.Core.Csv
+import GlareModel.Core.Rle
 
 /-! `gmodel`: line-protocol driver. Reads `case <n> <component> ...` lines on stdin and
 prints `out <n> ...` lines computed by the code-shaped model. -/
@@ -246,6 +247,26 @@ def runCsv (args : List String) (sample : Bool := false) : String :=
     | _, _, _ => "bad-case"
   | _ => "bad-case"
 
+/-- `case N rle <width> <chunks> <hex>`: read the chunks one after the other (resuming). -/
+def runRle (args : List String) : String :=
+  match args with
+  | [w, chunks, h] =>
+    match w.toNat?, (if h == "-" then some [] else parseHexBytes h) with
+    | some w, some bytes =>
+      let sizes := (chunks.splitOn ",").filterMap String.toNat?
+      let init : Rle.St := { bytes := bytes, width := w }
+      let res := sizes.foldl (fun (acc : Option (List Nat × Rle.St)) n =>
+        match acc with
+        | none => none
+        | some (vs, s) => match Rle.readN n s with
+          | none => none
+          | some (o, s') => some (vs ++ o, s')) (some ([], init))
+      match res with
+      | some (vs, _) => "ok " ++ ",".intercalate (vs.map toString)
+      | none => "oob"
+    | _, _ => "bad-case"
+  | _ => "bad-case"
+
 def step (line : String) : Option String :=
   -- `case N sem <payload>`: the payload keeps its spaces
   match (line.trimAscii.toString.splitOn " ") with
@@ -259,6 +280,7 @@ def step (line : String) : Option String :=
   | "case" :: n :: "sum" :: args => some s!"out {n} {runSum args}"
   | "case" :: n :: "cast" :: args => some s!"out {n} {runCast args}"
   | "case" :: n :: "like" :: args => some s!"out {n} {runLike args}"
+  | "case" :: n :: "rle" :: args => some s!"out {n} {runRle args}"
   | "case" :: n :: "csv" :: args => some s!"out {n} {runCsv args}"
   | "case" :: n :: "csvsample" :: args => some s!"out {n} {runCsv args true}"
   | "case" :: n :: "str" :: args => some s!"out {n} {runStr args}"
